@@ -113,6 +113,30 @@ def main():
         key = p if not isinstance(p, list) else "list"
         if got != ref[key]:
             fail("rebuild_failure.works_normally_once_offending_method_removed", probe=repr(p), got=got, want=ref[key])
+    # 2b. first-use build fails on conflicting names; the bad method is removed and a CORRECTED one with the same types is
+    #     registered: the function works normally, including the corrected method
+    o = Ovld(name="h2")
+
+    def g1(x: int, y: int):
+        return "g1"
+
+    def gbad(y: str, x: int):
+        return "gbad"
+
+    def ggood(x: str, y: int):
+        return "ggood"
+
+    o.register(g1)
+    o.register(gbad)
+    n += 1
+    first = out(o, 1, 2)
+    o.unregister(gbad)
+    o.register(ggood)
+    for args, want in (((1, 2), ("ok", "g1")), (("a", 2), ("ok", "ggood"))):
+        n += 1
+        got = out(o, *args)
+        if got != want:
+            fail("works_normally_with_a_corrected_method_after_the_offending_one_is_removed", call=repr(args), got=got, want=want, first_call=first)
     # 3. a user type hook raising during cache-miss resolution: a retry behaves normally afterwards
     from ovld import class_check
 
@@ -141,6 +165,61 @@ def main():
     r2 = out(o, 1)
     if r2 != ("ok", "flaky"):
         fail("hook_exception_during_resolution_then_retry", first=r1, retry=r2)
+    # 4. linked family, everyone in use; an invalid method arrives on an ancestor.  No OTHER member may be left serving
+    #    a partially filled table (the ancestor's own state is scenario 2 / finding F-halfbuilt).
+    for depth in (1, 2):
+        class A_: pass
+        class B_(A_): pass
+        class C_(A_): pass
+        class D_(A_): pass
+
+        def pa(x: A_):
+            return "A"
+
+        def pb(x: B_):
+            return "B"
+
+        parent = Ovld(name="lp")
+        parent.register(pa)
+        parent.register(pb)
+        fam = [parent]
+        for lvl in range(depth):
+            ch = fam[-1].copy(linkback=True)
+
+            def own(x, _lvl=lvl):
+                return f"own{_lvl}"
+
+            own.__annotations__ = {"x": (C_, D_)[lvl]}
+            ch.register(own)
+            fam.append(ch)
+        probes = (A_(), B_(), C_(), D_())
+        want = [[out(m, p) for p in probes] for m in fam]
+
+        def hs(x: int):
+            z = call_next
+            return "bad"
+
+        n += 1
+        try:
+            parent.register(hs)
+            fail("linked_family.invalid_method_not_rejected", depth=depth)
+        except Exception:
+            pass
+        for i, m in enumerate(fam[1:], 1):
+            for p, w_ in zip(probes, want[i]):
+                n += 1
+                got = out(m.dispatch, p)
+                if got[0] == "ok" and got != w_:
+                    fail("linked_family.member_silently_dispatches_over_partial_table", depth=depth, member=i, probe=type(p).__name__, got=got, complete_set_gives=w_)
+                if got == ("nomethod",) and w_[0] == "ok":
+                    fail("linked_family.member_no_method_although_registered", depth=depth, member=i, probe=type(p).__name__, complete_set_gives=w_)
+        parent.unregister(hs)
+        for i, m in enumerate(fam):
+            for p, w_ in zip(probes, want[i]):
+                n += 1
+                got = out(m.dispatch, p)
+                if got != w_:
+                    fail("linked_family.works_normally_once_offending_method_removed", depth=depth, member=i, probe=type(p).__name__, got=got, want=w_)
     print(json.dumps(dict(evaluations=n, failing=list(failing.values()))))
     return 1 if failing else 0
 
